@@ -189,6 +189,16 @@ func describe(n ast.Node) string {
 	}
 	head := asteq.Kind(n)
 	switch x := n.(type) {
+	case *ast.Selector:
+		if _, ok := x.Expr.(*ast.BasicLiteral); ok {
+			kids = append(kids, "Expr=literal")
+		}
+	case *ast.Call:
+		if n := len(x.Args); x.IsVariadic && n > 0 {
+			if _, ok := x.Args[n-1].(*ast.BasicLiteral); ok {
+				kids = append(kids, "Args[]=literal followed by ...")
+			}
+		}
 	case *ast.UnaryOperator:
 		head += "(" + strings.TrimSpace(x.Op.String()) + ")"
 	case *ast.BinaryOperator:
@@ -227,6 +237,9 @@ func describe(n ast.Node) string {
 	case *ast.TypeAssertion:
 		if x.Type == nil {
 			head += "(.(type))"
+		}
+		if _, ok := x.Expr.(*ast.BasicLiteral); ok {
+			kids = append(kids, "Expr=literal")
 		}
 	}
 	if _, isExpr := n.(ast.Expression); isExpr && len(kids) > 0 {
@@ -271,6 +284,14 @@ func exprRoundTrip(e ast.Expression) verdict {
 	return verdict{}
 }
 
+// mergedEffect folds the ways of not parsing back to the same expression into one.
+func mergedEffect(e string) string {
+	if e == "reparse-syntax-error" || e == "reparsed-as-other-nodes" || strings.HasPrefix(e, "reparsed-tree-differs(as ") {
+		return "not-reparsed-as-the-same-expression"
+	}
+	return e
+}
+
 // simplified returns a copy of e whose non-atomic children that do not
 // matter for the failure are replaced by the identifier "a", so that the key
 // names only what causes the failure.
@@ -285,7 +306,7 @@ func simplified(e ast.Expression, effect string) ast.Expression {
 	atom := func() reflect.Value {
 		return reflect.ValueOf(ast.NewIdentifier(&ast.Position{Line: 1, Column: 1}, "a"))
 	}
-	same := func() bool { return exprRoundTrip(cur).effect == effect }
+	same := func() bool { return mergedEffect(exprRoundTrip(cur).effect) == mergedEffect(effect) }
 	t := cp.Elem().Type()
 	exprType := reflect.TypeOf((*ast.Expression)(nil)).Elem()
 	for i := 0; i < t.NumField(); i++ {
